@@ -40,6 +40,10 @@ type budgetCase struct {
 	Det      bool   `json:"det"`
 	Ctx      string `json:"ctx"`
 	Requests []int  `json:"requests"`
+	// Stress: the runs of the first cycle are lined up at the budget site (spin barrier at the worker_budget hook)
+	// and released together, Trials times: the search for an over-grant when the grab is not one atomic step
+	Stress bool `json:"stress,omitempty"`
+	Trials int  `json:"trials,omitempty"`
 }
 
 func runBudget(o *Out, _ *rand.Rand, thorough bool) {
@@ -71,6 +75,15 @@ func runBudget(o *Out, _ *rand.Rand, thorough bool) {
 		for k := 0; k < 64; k++ {
 			bc.Requests = append(bc.Requests, []int{1, 3, 10, 40, 200}[rng.Intn(5)])
 		}
+		if ci%5 == 4 {
+			k := 2 + rng.Intn(7)
+			if k > ncpu {
+				k = ncpu
+			}
+			n := []int{5, 20, 60}[rng.Intn(3)]
+			*bc = budgetCase{Case: c, Iters: n, DurMs: 3000, Runs: k, Ctx: "runstart", Stress: true, Trials: 25,
+				Requests: []int{n, n, n, n/2 + 1}}
+		}
 		if !o.BeginCase(ci, bc) {
 			continue
 		}
@@ -80,6 +93,10 @@ func runBudget(o *Out, _ *rand.Rand, thorough bool) {
 			continue
 		}
 		res := solveBudget(bt.model, bc)
+		for t := 1; bc.Stress && t < bc.Trials && res.pan == "" && res.err == "" && res.iterated <= int64(bc.Iters); t++ {
+			res = solveBudget(bt.model, bc)
+			o.Count("stress-trials")
+		}
 		if res.pan != "" {
 			o.Violate(Violation{Property: "C15", Clause: "panic", Sig: "C15|panic|" + sigDetail(res.pan), Detail: res.pan, Replay: bc})
 			continue
@@ -188,7 +205,15 @@ func solveBudget(model nextroute.Model, bc *budgetCase) (res budgetResult) {
 	})
 	var iterated atomic.Int64
 	solver.SolveEvents().Iterated.Register(func(_ nextroute.SolveInformation) { iterated.Add(1) })
+	var arrived atomic.Int64
 	nextroute.VerifHook = func(site string, args ...any) {
+		if site == "worker_budget" && bc.Stress {
+			if n := arrived.Add(1); n <= int64(bc.Runs) {
+				t0 := time.Now()
+				for arrived.Load() < int64(bc.Runs) && time.Since(t0) < 100*time.Millisecond {
+				}
+			}
+		}
 		if site == "worker_grant" {
 			mu.Lock()
 			res.grants = append(res.grants, args[1].(int))
@@ -310,6 +335,12 @@ func runDetSched(o *Out, _ *rand.Rand, thorough bool) {
 		rng := o.CaseRng(ci)
 		c := genCase(rng, fullProfile(5+rng.Intn(6), 1+rng.Intn(3)))
 		c.Solve = &CSolve{Runs: []int{1, 1, 2, 3}[rng.Intn(4)], Starts: rng.Intn(2), Det: true, Iters: 800 + rng.Intn(1500)}
+		if ci%2 == 1 {
+			// many short runs on a larger instance: cycles end while the search is still improving, so the hand-over
+			// of a cycle's last improvement to the next cycle is exercised
+			c = genCase(rng, fullProfile(12+rng.Intn(8), 2+rng.Intn(2)))
+			c.Solve = &CSolve{Runs: 1, Starts: rng.Intn(2), Det: true, Iters: 600 + rng.Intn(600), Slice: []int{10, 25, 60}[rng.Intn(3)]}
+		}
 		if replayFile != "" {
 			c = loadReplayCase(replayFile)
 			ncases = 1
@@ -345,6 +376,11 @@ func runDetSched(o *Out, _ *rand.Rand, thorough bool) {
 			sols, _, serr, span := solveAllWith(bt.model, nextroute.ParallelSolveOptions{Iterations: c.Solve.Iters, Duration: 30 * time.Second,
 				ParallelRuns: c.Solve.Runs, StartSolutions: c.Solve.Starts, RunDeterministically: true},
 				func(ps nextroute.ParallelSolver) {
+					if c.Solve.Slice > 0 {
+						ps.SetSolveOptionsFactory(func(nextroute.ParallelSolveInformation) (nextroute.SolveOptions, error) {
+							return nextroute.SolveOptions{Iterations: c.Solve.Slice, Duration: 30 * time.Second}, nil
+						})
+					}
 					ps.ParallelSolveEvents().NewSolution.Register(func(info nextroute.ParallelSolveInformation, s nextroute.Solution) {
 						mu.Lock()
 						if v, ok := reported[info.Run()]; !ok || s.Score() < v {
@@ -412,12 +448,23 @@ func runRepro(o *Out, _ *rand.Rand, thorough bool) {
 	for ci := 0; ci < ncases; ci++ {
 		rng := o.CaseRng(ci)
 		p := fullProfile(5+rng.Intn(7), 1+rng.Intn(3))
+		p.ForceUnordered = ci%4 != 3
+		div := 200
+		if ci%2 == 0 {
+			// many stops, few constraints, matrices with a handful of distinct values: many equally good moves, so
+			// the tie-break draws decide which solution comes out
+			p = Profile{MaxStops: 16 + rng.Intn(10), MaxVehicles: 2 + rng.Intn(2), Precedence: true, ForceUnordered: true, Capacity: rng.Intn(2) == 0}
+			div = 100
+		}
 		c := genCase(rng, p)
 		// ties: collapse the matrices to few distinct values
 		for _, m := range [][][]int{c.Dur, c.Dist} {
 			for i := range m {
 				for j := range m[i] {
-					m[i][j] = (m[i][j] / 200) * 200
+					m[i][j] = (m[i][j] / div) * div
+					if div == 100 && i != j {
+						m[i][j] = 60 * (1 + m[i][j]/100)
+					}
 				}
 			}
 		}
@@ -436,15 +483,24 @@ func runRepro(o *Out, _ *rand.Rand, thorough bool) {
 			// a fresh model per repetition: "the same model" means the same input and options
 			bt, err, pan := buildCase(c)
 			if pan != nil || err != nil {
+				o.Count("repro-build-failed:" + fmt.Sprint(pan != nil))
+				if err != nil {
+					o.Count("repro-build-error:" + errKind(err))
+				}
 				break
 			}
-			if rep%2 == 1 {
+			switch rep % 3 {
+			case 1:
+				// the producer of stop orders is slowed down: a consumer that shared its random source would draw first
+				nextroute.VerifHook = scheduleHook(map[string]time.Duration{"seq_perm": 40 * time.Microsecond}, nil)
+			case 2:
 				nextroute.VerifHook = scheduleHook(map[string]time.Duration{"worker_send": 2 * time.Millisecond}, nil)
 			}
 			sols, _, serr, span := solveAll(bt.model, nextroute.ParallelSolveOptions{Iterations: c.Solve.Iters, Duration: 30 * time.Second,
 				ParallelRuns: 1, StartSolutions: c.Solve.Starts, RunDeterministically: c.Solve.Det})
 			nextroute.VerifHook = nil
 			if span != nil || serr != nil {
+				o.Count("repro-solve-failed")
 				break
 			}
 			var seq []string
